@@ -17,7 +17,7 @@ class C06(Spec):
     rule = ("1-4 writes of sizes 1..200 000 bytes issued through Transport::asyncWrite on a live listener, from the loop thread "
             "and from a foreign thread, with the outcome of each successive send call on that connection scripted through "
             "the PISTACHE_VERIF hook: every placement of one or two would-blocks and of short writes (1, 7, size-1 bytes) "
-            "over the first calls (exhaustive for scripts up to 4 outcomes over {accept-all, short, would-block}), memory and file buffers (sendfile) mixed with a late reader, a really blocked 8-32 MB write whose descriptor is then reported readable and writable in one poll result (worker kept busy meanwhile), plus seeded "
+            "over the first calls (exhaustive for scripts up to 4 outcomes over {accept-all, short, would-block}), memory and file buffers (sendfile) mixed with a late reader, 2-8 foreign threads writing concurrently on one connection (whole buffers, each once, per-thread order), a really blocked 8-32 MB write whose descriptor is then reported readable and writable in one poll result (worker kept busy meanwhile), plus seeded "
             "longer scripts. The peer's bytes are compared with the concatenation of the buffers, each promise's value with "
             "the buffer size, and the number of send calls with the model's. non-trivial = script containing a would-block "
             "or a short write; distinct by case line")
@@ -42,6 +42,11 @@ class C06(Spec):
             spec = ",".join("%s%d" % (rng.choice("rf"), rng.choice([1, 100, 4096, 65536, 1000000, 5000000, rng.randint(1, 3000000)])) for _ in range(rng.randint(1, 4)))
             fcases.append("F %s %d %s" % (rng.choice("LF"), rng.choice([0, 100, 300]), spec))
         cases.extend(fcases)
+        # several foreign threads writing concurrently on one connection: whole buffers, each once, per-thread order
+        gcases = ["G 4 50 1000 0", "G 8 20 100000 200", "G 2 3 10 0", "G 6 100 3000 100"]
+        for _ in range(3 if tier == "quick" else 40):
+            gcases.append("G %d %d %d %d" % (rng.randint(2, 8), rng.randint(1, 60), rng.choice([1, 10, 1000, 5000, 70000, 200000]), rng.choice([0, 100, 300])))
+        cases.extend(gcases)
         n = 150 if tier == "quick" else 3000
         for _ in range(n):
             sizes = [rng.choice([1, 2, 100, 4096, 65536, 200000, rng.randint(1, 50000)]) for _ in range(rng.randint(1, 4))]
@@ -62,6 +67,17 @@ class C06(Spec):
             return "transport harness %s on %s" % (impl, case)
         t = case.split()
         f = dict(x.split("=") for x in impl.split()[1:])
+        if t[0] == "G":
+            n = int(t[1]) * int(t[2])
+            if f["torn"] != "0":
+                return "buffers written concurrently by %s threads arrived interleaved or corrupted (%s)" % (t[1], impl)
+            if int(f["whole"]) != n or int(f["bytes"]) != n * (17 + int(t[3])):
+                return "%d buffers were written by %s threads, the peer received %s whole buffers / %s bytes" % (n, t[1], f["whole"], f["bytes"])
+            if f["misordered"] != "0":
+                return "%s buffers arrived out of their thread's issue order" % f["misordered"]
+            if int(f["fulfilled"]) != n or f["other"] != "0":
+                return "%s of %d promises were fulfilled with the buffer size (%s rejected or wrong)" % (f["fulfilled"], n, f["other"])
+            return None
         if t[0] == "E":
             if int(f["bytes"]) != int(t[2]) or f["content"] != "1" or f["p"] != t[2]:
                 return ("a write was pending when its descriptor was reported readable and writable together: the peer received %s of %s bytes, promise %s"
@@ -85,7 +101,7 @@ class C06(Spec):
         return impl == model
 
     def nontrivial(self, case, impl):
-        if case.startswith(("E", "F")):
+        if case.startswith(("E", "F", "G")):
             return True
         sc = case.split()[3]
         return "w" in sc or "a1" in sc or "a7" in sc
@@ -96,6 +112,8 @@ class C06(Spec):
             return "readable+writable"
         if t[0] == "F":
             return "file-buffers"
+        if t[0] == "G":
+            return "concurrent-producers"
         return "%s-%dwrites-%s" % (t[1], len(t[2].split(",")), "wouldblock" if "w" in t[3].split(",") else "accept")
 
 
